@@ -54,6 +54,10 @@ CHECKS.update({
  "C17": ("Coq: over the complete finite domain of 192 configuration shapes, the keys the tool writes (regenerated from to_input()/write_input_file) satisfy required/additionalProperties of its own schemas (regenerated from schemas/*.json) and are exactly what the CLI loader reads (regenerated); real write -> validate -> load -> write round trips compared byte for byte",
          "value-level validity (types, ranges, enums) and byte idempotence of deg<->rad are observed, not proved", "6 C17"),
 })
+CHECKS.update({
+ "C15": ("Coq: on the expressions REGENERATED from equivalent_single_u_tube — fluid and pipe-wall volumes preserved, pipe resistance reproduced (sqrt only through (sqrt y)^2 = y, ln abstract), and the exact conditions under which each conductivity root solve matches or clamps; real to_single() sweeps",
+         "the 0.1 % borehole-resistance clause is decided by computation; it FAILS on the unchanged tree for every multi-pipe geometry (listed known finding, keyed by call site)", "6 C15"),
+})
 NA = {}
 def main():
     checks = []
